@@ -10,6 +10,9 @@ use std::path::{Path, PathBuf};
 use std::time::Instant;
 
 pub const DEFAULT_SEED: u64 = 20261004;
+/// The first scenarios of every run are executed a second time, by another set of worker
+/// processes, and their event-log hashes compared (built-in determinism re-check).
+pub const DETERMINISM_SAMPLE: u64 = 1500;
 
 #[derive(Serialize, Deserialize, Default, Debug)]
 pub struct WorkerOut {
@@ -61,7 +64,7 @@ pub fn worker(a: &WorkerArgs) {
             out.nontrivial += 1;
             fps.push(st.fingerprint);
         }
-        if a.dump_hashes {
+        if a.dump_hashes || i < DETERMINISM_SAMPLE {
             let mut h = st.log_hash;
             fnv(&mut h, &st.fingerprint.to_le_bytes());
             if let Some(v) = &v {
@@ -432,6 +435,29 @@ pub fn check(a: &RunArgs) -> i32 {
             return 2;
         }
     };
+    // built-in determinism re-check: same scenarios, other processes, other worker count
+    let recheck_n = a.scenarios.min(DETERMINISM_SAMPLE);
+    let a2 = RunArgs {
+        prop: a.prop.clone(),
+        tier: a.tier.clone(),
+        seed: a.seed,
+        scenarios: recheck_n,
+        workers: 5,
+        verif_dir: a.verif_dir.clone(),
+        write_evidence: false,
+        dump_hashes: true,
+    };
+    let agg2 = match spawn_workers(&a2, "recheck") {
+        Ok(x) => x,
+        Err(e) => {
+            eprintln!("harness error: {}", e);
+            return 2;
+        }
+    };
+    let diverged: Vec<u64> = (0..recheck_n).filter(|i| agg.log_hashes.get(i) != agg2.log_hashes.get(i) || agg.log_hashes.get(i).is_none()).collect();
+    if diverged.is_empty() {
+        println!("determinism re-check: {} scenarios re-executed in other processes, identical event logs", recheck_n);
+    }
     let o = &agg.out;
     println!(
         "explored scenarios={} executions={} distinct_nontrivial={} unevaluable={} violating_scenarios={} wall={:.1}s",
@@ -563,6 +589,7 @@ pub fn check(a: &RunArgs) -> i32 {
                 "components": components(),
                 "known_findings_reported": reported_known.iter().collect::<Vec<_>>(),
                 "regression_replays_passed": regress_run,
+                "determinism_recheck": { "scenarios_re_executed_in_other_processes": recheck_n, "identical_event_logs": diverged.is_empty() },
             },
             "assumptions": [
                 "the in-memory file system, stream and clock facades represent what std and the kernel may legally do (validated by `./check selftest fidelity` against the real binary)",
@@ -579,6 +606,10 @@ pub fn check(a: &RunArgs) -> i32 {
         f.write_all(serde_json::to_string_pretty(&ev).unwrap().as_bytes()).unwrap();
         f.write_all(b"\n").unwrap();
         println!("evidence written to {}", p.display());
+    }
+    if exit == 0 && !diverged.is_empty() {
+        eprintln!("harness error: {} of {} re-executed scenarios produced a different event log (first: {:?}); the simulation is not deterministic on this tree", diverged.len(), recheck_n, &diverged[..diverged.len().min(5)]);
+        return 2;
     }
     if exit == 0 && a.tier == "thorough" && !zero_probes.is_empty() {
         eprintln!("harness error: reach probes stuck at zero in a thorough run: {:?}", zero_probes);
